@@ -27,6 +27,15 @@ def run(prog: Program, rep: Report):
     # argument roles of its relation calls) is part of this property
     from .c10 import SPAN_MOD, r2_sites
     r2_sites(prog, rep, prog.cls("SpanSet", SPAN_MOD), rule="C16.R5", floor=3)
+    from .memo import public_entry_points, rule_derived_state
+    from .ownership import rule_no_class_state
+    roles = interval_roles(prog.method(im, "__init__"))
+    prim = {v.split(".", 1)[1] for v in roles.values() if v.startswith("self.")}
+    rule_derived_state(prog, rep, "C16.R6", im, prim, public_entry_points(prog, im),
+                       what="the map is immutable: a remembered key or value (a one-entry look-up memo) is derived from the look-up "
+                            "argument, not from the map, and is handled by the look-up rules; this instance only guards fields derived "
+                            "from the arrays")
+    rule_no_class_state(prog, rep, "C16.R7", [im])
 
 
 def _raises(stmts) -> Optional[str]:
